@@ -65,4 +65,5 @@ def run(ctx, rep):
     # H17: the supplied argument values reach the C++ entity: every converter rejects exactly what it cannot convert, strings are read whole (= C18 K10)
     rep.run(RH2.rule_guard_truth_tables, ctx, rep, "H17")
     rep.run(RM.rule_guard_builders_by_evaluation, ctx, rep, "H18")
+    rep.run(RID.rule_routines_by_evaluation, ctx, rep, "H19")
     rep.run(RF.rule_locals_defined, ctx, rep, "U1", packages=("gtwrap/matlab_wrapper",), min_functions=3)
